@@ -19,6 +19,7 @@ RULE = ("Per case one (metric, length, input-class, memory-layout) cell: vectors
         "read-only arrays; value compared with a 60-digit Decimal closed form within 1e-9*|ref|+1e-10*sum|terms|+1e-12. "
         "Registry cases: every candidate identifier x every model class: accepted <=> in registry, distance_fn is the "
         "registry entry. Non-trivial: length>=2 and x!=y; distinct = distinct (metric, vectors) hash.")
+RULE += (' Registry cases also try near-miss spellings of each identifier (dashes, upper case, leading blank, trailing underscore): accepted <=> in registry.')
 ASSUMPTIONS = [
     "closed forms and constant conventions are those transcribed in opfmon/metrics_table.py (Prasath et al. 2017, Cha 2007, Hassanat 2014)",
     "value comparison is on well-conditioned (independent) vectors; near-identical / parallel pairs are judged by C08's axioms instead",
